@@ -16,6 +16,7 @@
 
 #define MAXPEER 8
 static nng_socket peers[MAXPEER];
+static int        peer_raw[MAXPEER]; // `rawfan` mode: this peer is a RAW bus socket (it sees the protocol header)
 
 static void
 fatal(const char *what, int rv)
@@ -36,7 +37,17 @@ drain(int np, int wait_ms)
 				break;
 			}
 			uint8_t *b = nng_msg_body(m);
-			if (nng_msg_len(m) == 3 && nng_msg_header_len(m) == 0) {
+			if (peer_raw[p]) {
+				// a raw receiver: the header is exactly one word, the id of the pipe the message arrived on
+				uint32_t pid = (uint32_t) nng_pipe_id(nng_msg_get_pipe(m));
+				uint8_t *h   = nng_msg_header(m);
+				if (nng_msg_len(m) == 3 && nng_msg_header_len(m) == 4 &&
+				    ((uint32_t) h[0] << 24 | (uint32_t) h[1] << 16 | (uint32_t) h[2] << 8 | h[3]) == pid) {
+					printf("got %d %d %d\n", p, b[0], (b[1] << 8) | b[2]);
+				} else {
+					printf("got %d bad %zu %zu\n", p, nng_msg_len(m), nng_msg_header_len(m));
+				}
+			} else if (nng_msg_len(m) == 3 && nng_msg_header_len(m) == 0) {
 				printf("got %d %d %d\n", p, b[0], (b[1] << 8) | b[2]);
 			} else {
 				printf("got %d bad %zu %zu\n", p, nng_msg_len(m), nng_msg_header_len(m));
@@ -53,6 +64,7 @@ main(int argc, char **argv)
 		return (2);
 	}
 	int      reflect = strcmp(argv[1], "reflect") == 0;
+	int      rawfan  = strcmp(argv[1], "rawfan") == 0; // no device: peer 0 (cooked) listens, the others are RAW dialers
 	int      na = atoi(argv[2]), nb = atoi(argv[3]), rounds = atoi(argv[4]);
 	uint64_t seed = strtoull(argv[5], NULL, 10) * 0x9e3779b97f4a7c15ull + 1;
 	int      np   = na + nb;
@@ -64,6 +76,38 @@ main(int argc, char **argv)
 		return (2);
 	}
 	nng_init(NULL);
+	if (rawfan) {
+		// peer 0: cooked listener and the only sender; peers 1..np-1: RAW dialers (fan-out to several raw receivers
+		// over inproc: each must get its own message whose header names the pipe it arrived on)
+		if ((rv = nng_bus0_open(&peers[0])) != 0) fatal("open", rv);
+		if ((rv = nng_listen(peers[0], "inproc://c09-f", NULL, 0)) != 0) fatal("listen", rv);
+		for (int p = 1; p < np; p++) {
+			peer_raw[p] = 1;
+			if ((rv = nng_bus0_open_raw(&peers[p])) != 0) fatal("open", rv);
+			if ((rv = nng_dial(peers[p], "inproc://c09-f", NULL, 0)) != 0) fatal("dial", rv);
+		}
+		nng_msleep(50);
+		for (int q = 0; q < rounds; q++) {
+			nng_msg *m;
+			nng_msg_alloc(&m, 0);
+			uint8_t b[3] = { 0, (uint8_t) (q >> 8), (uint8_t) q };
+			nng_msg_append(m, b, 3);
+			rv = nng_sendmsg(peers[0], m, (q & 1) ? NNG_FLAG_NONBLOCK : 0);
+			if (rv != 0) {
+				nng_msg_free(m);
+			}
+			printf("sent 0 %d %d\n", q, rv);
+			drain(np, 10);
+		}
+		drain(np, 100);
+		printf("end\n");
+		fflush(stdout);
+		for (int p = 0; p < np; p++) {
+			nng_socket_close(peers[p]);
+		}
+		nng_fini();
+		return (0);
+	}
 	if ((rv = nng_bus0_open_raw(&da)) != 0) fatal("open", rv);
 	if ((rv = nng_listen(da, "inproc://c09-a", NULL, 0)) != 0) fatal("listen", rv);
 	if (!reflect) {
